@@ -601,6 +601,24 @@ def gen_case(rng, idx):
                     i += 1
         tasks.append(task)
 
+    # names like `tmp` or `usr` are not unique: keep the first use per place,
+    # give the others their regular (tag carrying) name back
+    used = set()
+    for task in tasks:
+        named = task['sandbox'] != 'default'
+        for d in task['inputs'] + task['outputs']:
+            tgt = d.get('tgt')
+            if not tgt or not tgt.get('hostdir_name'):
+                continue
+            # a task sandbox is its own place only if it is the default one
+            place = (tgt['loc'], tgt['rel'],
+                     task['uid'] if tgt['loc'] == 'task' and not named
+                     else None)
+            if place in used:
+                tgt['rel'] = '%s_%s' % (d['tag'], tgt['rel'])
+                del tgt['hostdir_name']
+            used.add(place)
+
     return {'id': idx, 'tasks': tasks, 'cut': rng.randint(0, len(tasks))}
 
 
